@@ -89,6 +89,56 @@ Lemma scalar_keys_distinct_by_type_and_value :
 Proof. intros. repeat split. Qed.
 
 (* ---- one set of pairs behind len / keys / values / items / iteration ------------------- *)
+
+(* ---- names are listed in sorted order ------------------------------------------------ *)
+(* a <= b in the byte order of strings (String.compare): b is not strictly before a *)
+Definition str_le (a b : string) : Prop := str_ltb b a = false.
+
+Inductive sorted_names : list string -> Prop :=
+| sn_nil : sorted_names []
+| sn_one x : sorted_names [x]
+| sn_cons x y t : str_le x y -> sorted_names (y :: t) -> sorted_names (x :: y :: t).
+
+Lemma str_ltb_asym a b : str_ltb a b = true -> str_ltb b a = false.
+Proof.
+  unfold str_ltb. rewrite (String.compare_antisym b a). destruct (String.compare a b); cbn; congruence.
+Qed.
+
+Lemma ins_sorted_names x l : sorted_names l -> sorted_names (Values.ins_sorted (fun s => s) x l).
+Proof.
+  induction 1 as [|y|y z t Hyz Hs IH]; cbn [Values.ins_sorted].
+  - constructor.
+  - destruct (str_ltb x y) eqn:E.
+    + constructor; [apply str_ltb_asym; exact E|constructor].
+    + constructor; [exact E|constructor].
+  - destruct (str_ltb x y) eqn:E.
+    + constructor; [apply str_ltb_asym; exact E|]. now constructor.
+    + cbn [Values.ins_sorted] in IH. destruct (str_ltb x z) eqn:E2.
+      * constructor; [exact E|exact IH].
+      * constructor; [exact Hyz|exact IH].
+Qed.
+
+Lemma sort_by_sorted_names l : sorted_names (sort_by (fun s => s) l).
+Proof.
+  unfold sort_by. assert (forall acc, sorted_names acc ->
+    sorted_names (fold_left (fun a x => Values.ins_sorted (fun s => s) x a) l acc)) as H.
+  { induction l as [|x t IH]; intros acc Ha; cbn [fold_left]; [exact Ha|]. apply IH. now apply ins_sorted_names. }
+  apply H. constructor.
+Qed.
+
+(* keys lists the public names in sorted order; private?: true appends the private names, sorted too *)
+Lemma public_keys_sorted ps : sorted_names (public_keys ps).
+Proof. apply sort_by_sorted_names. Qed.
+Lemma private_keys_sorted ps : sorted_names (private_keys ps).
+Proof. apply sort_by_sorted_names. Qed.
+
+(* each own name is listed once *)
+Lemma public_keys_nodup ps : NoDup (map fst ps) -> NoDup (public_keys ps).
+Proof.
+  intros N. unfold public_keys. eapply Permutation_NoDup; [symmetry; apply sort_by_perm|].
+  now apply NoDup_filter.
+Qed.
+
 Section Views.
 Variable W : wk.
 Variable R : recs.
@@ -135,4 +185,19 @@ Proof.
   assert (as_map W st (VMap p sc ns) = Some (sc, ns)) as A by (apply (as_map_self st p sc ns p); reflexivity).
   cbn [call_builtin]. unfold bind, get_st. rewrite A, Ha, Hs, Hl. reflexivity.
 Qed.
+
+(* keys / values / items of an object are three views of one listing: the sorted public names (then the
+   sorted private names when private?: true), each with the value stored under it *)
+Lemma obj_views_consistent st id o kw :
+  as_obj W st (VObj id) = Some id -> get_obj st id = Some o ->
+  let ks := app (public_keys (opairs o)) (if kw_true kw "private?"%string then private_keys (opairs o) else []) in
+  let row f := flat_map (fun k => match assoc k (opairs o) with Some v => [f k v] | None => [] end) ks in
+  call_builtin W R env B_Obj_keys [VObj id] kw st = (Ok (vArr W (row (fun k _ => vStr W k))), st) /\
+  call_builtin W R env B_Obj_values [VObj id] kw st = (Ok (vArr W (row (fun _ v => v))), st) /\
+  call_builtin W R env B_Obj_items [VObj id] kw st = (Ok (vArr W (row (fun k v => vArr W [vStr W k; v]))), st).
+Proof.
+  intros A G ks row. repeat split; cbn [call_builtin arg0 nth_error need]; unfold bind, ret;
+    unfold obj_listing, own_pairs, bind, ret, get_st; rewrite A, G; reflexivity.
+Qed.
+
 End Views.
